@@ -75,6 +75,10 @@ def exit_obligations(prop="C10", repo=None):
                     gi_flags=GI, strength="U", functions=["run_standalone (nano_vm)"], timeout=600,
                     witness={"replayer": "exit_vm"},
                     must_have=[r"run_standalone\.postcondition", r"loop_invariant_step"], min_checks=20))
+    obs.append(dict(id=prop + ".exit.vm_main", prop=prop, harness=EXIT, entry="h_vm_main", annotate=VM_ANN,
+                    defines={"EXIT_UNIT_VM_MAIN": 1}, enforce="vm_main", replace=["run_standalone", "run_daemon"], loops=True,
+                    unwind="auto", checks=[], flags=NOCHK, gi_flags=GI, strength="U", functions=["main (nano_vm)"], timeout=600,
+                    must_have=[r"vm_main\.postcondition", r"loop_invariant_step"], min_checks=10))
     for imp in (0, 1):
         obs.append(dict(id=prop + ".exit.wrapper.imp%d" % imp, prop=prop, harness=EXIT, entry="h_wrapper_main",
                         extract=["wrapper_main_imp%d" % imp], defines={"EXIT_UNIT_WRAPPER": 1}, enforce="wrapper_main",
